@@ -285,7 +285,61 @@ func (f *frame) callStatic(callee *ssa.Function, bindings []Val, args []Val, st 
 	}
 	// foreign function without stub: result havoc, heap unchanged
 	c.assumed["assumed-pure:"+sk] = true
+	if r := f.pureUF(callee.Signature, sk, args); r != nil {
+		return r
+	}
 	return f.havocResults(callee.Signature, sk, st)
+}
+
+// pureUF models a foreign function without stub whose arguments and results are all plain scalars
+// (integers, booleans, strings) as a deterministic uninterpreted function of its arguments.
+func (f *frame) pureUF(sig *types.Signature, name string, args []Val) []Val {
+	c := f.c
+	scalar := func(t types.Type) bool {
+		for _, l := range leavesOf(t) {
+			if l.Role != "" {
+				return false
+			}
+		}
+		return true
+	}
+	var targs []*Term
+	var sorts []string
+	for _, a := range args {
+		if !scalar(a.T) {
+			return nil
+		}
+		for _, l := range a.L {
+			targs = append(targs, l)
+			sorts = append(sorts, l.S)
+		}
+	}
+	if sig.Results().Len() == 0 {
+		return nil
+	}
+	var out []Val
+	for i := 0; i < sig.Results().Len(); i++ {
+		rt := sig.Results().At(i).Type()
+		if !scalar(rt) {
+			return nil
+		}
+		ls := leavesOf(rt)
+		v := Val{T: rt, L: make([]*Term, len(ls))}
+		for j, l := range ls {
+			fn := fmt.Sprintf("ext_%s_r%d", sanitize(name), i)
+			if len(ls) > 1 {
+				fn += fmt.Sprintf("_%d", j)
+			}
+			if len(targs) == 0 {
+				v.L[j] = c.decls.Const(fn, l.Sort)
+			} else {
+				c.decls.Fun(fn, sorts, l.Sort)
+				v.L[j] = App(fn, l.Sort, targs...)
+			}
+		}
+		out = append(out, v)
+	}
+	return out
 }
 
 func (f *frame) havocResults(sig *types.Signature, name string, st *State) []Val {
@@ -440,6 +494,11 @@ func (f *frame) applyContract(fs *FuncSpec, callee *ssa.Function, sig *types.Sig
 	c := f.c
 	if callee != nil {
 		sig = callee.Signature
+	}
+	for _, a := range args {
+		if fn, ok := a.Fn.(*ssa.Function); ok && len(a.L) == 1 {
+			f.closureAxiom(a, fn, st)
+		}
 	}
 	pre := st.clone()
 	envPre := f.callEnv(callee, fs, args, nil, pre, pre)
@@ -607,6 +666,99 @@ func (f *frame) callUnknownFunc(fv Val, sig *types.Signature, args []Val, st *St
 	out := c.applyFuncTerm(fv, sig, args)
 	c.assumed["callback-pure:"+sig.String()] = true
 	return out
+}
+
+// closureAxiom links the uninterpreted application of a known closure value to its body:
+// forall args. apply(cid, args) == body(args), obtained by running the (pure, loop-free) body on bound variables.
+func (f *frame) closureAxiom(fv Val, fn *ssa.Function, st *State) {
+	c := f.c
+	if c.pass1 {
+		return
+	}
+	key := fv.L[0].String()
+	if c.closureAx == nil {
+		c.closureAx = map[string]bool{}
+	}
+	if c.closureAx[key] {
+		return
+	}
+	c.closureAx[key] = true
+	sig := fn.Signature
+	if sig.Results().Len() != 1 || len(fn.Blocks) == 0 {
+		return
+	}
+	defer func() {
+		if r := recover(); r != nil {
+			if _, ok := r.(unsupported); ok {
+				c.note("no body axiom for closure " + fn.Name())
+				return
+			}
+			panic(r)
+		}
+	}()
+	var bound []*Term
+	var args []Val
+	savedBound := c.bound
+	savedFacts := len(c.facts)
+	for i, p := range fn.Params {
+		ls := leavesOf(p.Type())
+		v := Val{T: p.Type(), L: make([]*Term, len(ls))}
+		for j, l := range ls {
+			c.nfresh++
+			bv := Var(fmt.Sprintf("ca%d_%d!%d", i, j, c.nfresh), l.Sort)
+			bound = append(bound, bv)
+			c.bound = append(c.bound, bv.Op)
+			v.L[j] = bv
+		}
+		if pt, ok := p.Type().Underlying().(*types.Pointer); ok {
+			v.Root = pt.Elem()
+		}
+		args = append(args, v)
+	}
+	sub := &frame{c: c, fn: fn, bindings: fv.Bindings, prefix: f.prefix + "cax_" + sanitize(fn.Name()) + ".", inherit: nil}
+	scratch := st.clone()
+	scratch.reach = TTrue
+	c.depth++
+	savedActive := c.active
+	savedIn := c.inUnfold
+	c.inUnfold++ // no obligations from the body here: the body is verified where it is actually called
+	c.noNaming++
+	rets := sub.run(args, scratch)
+	c.noNaming--
+	c.inUnfold = savedIn
+	c.active = savedActive
+	c.depth--
+	c.bound = savedBound
+	var es []edge
+	var vals []Val
+	for _, r := range rets {
+		if r.panics {
+			c.facts = c.facts[:savedFacts]
+			return
+		}
+		es = append(es, edge{cond: r.cond, st: r.st})
+		vals = append(vals, r.results[0])
+	}
+	if len(es) == 0 {
+		return
+	}
+	// result as a nested ite over the return conditions (must not introduce named constants: bound vars)
+	res := vals[len(vals)-1]
+	out := make([]*Term, len(res.L))
+	for j := range res.L {
+		t := vals[len(vals)-1].L[j]
+		for k := len(vals) - 2; k >= 0; k-- {
+			t = Ite(es[k].cond, vals[k].L[j], t)
+		}
+		out[j] = t
+	}
+	app := c.applyFuncTerm(fv, sig, args)
+	var eqs []*Term
+	for j := range out {
+		eqs = append(eqs, Eq(app[0].L[j], out[j]))
+	}
+	c.addFact(Forall(bound, And(eqs...), []*Term{app[0].L[0]}))
+	c.assumed["closure-body-axiom:"+fn.Name()] = true
 }
 
 // applyFuncTerm models a call through a function value as a pure uninterpreted function of the
@@ -785,7 +937,9 @@ func (f *frame) appendOp(common *ssa.CallCommon, args []Val, st *State, instr ss
 		c.set(st, fam, Store(h, obj, a))
 	}
 	c.note("append modelled functionally (fresh backing array; in-place growth aliasing not modelled)")
-	return Val{T: st0, L: []*Term{obj, IntT(0), newLen, cp}}
+	// appending nothing returns the slice itself
+	isEmpty := Eq(n, IntT(0))
+	return Val{T: st0, L: []*Term{Ite(isEmpty, s.L[0], obj), Ite(isEmpty, s.L[1], IntT(0)), newLen, Ite(isEmpty, s.L[3], cp)}}
 }
 
 func (f *frame) copyOp(common *ssa.CallCommon, args []Val, st *State, instr ssa.Instruction) Val {
